@@ -1,6 +1,6 @@
 import AfqmcVerif.Lemmas.Machine
 import AfqmcVerif.Generated.SamplerProg
-import AfqmcVerif.Model.Estimator
+import AfqmcVerif.Lemmas.Estimator
 import Mathlib.Tactic.Linarith
 import Mathlib.Tactic.Ring
 import Mathlib.Tactic.FieldSimp
@@ -113,17 +113,7 @@ theorem blockEnergy_const (eEst bound2 E : K) (w : List K) (n : ℕ) (hn : w.len
 /-- batching changes nothing: evaluating per batch and concatenating is the per-walker map, for
 every batch count `nb` and batch size `bs` with `nb · bs = n` -/
 theorem batched_eq_map {α β : Type} (f : α → β) (nb bs : ℕ) (l : List α) (h : l.length = nb * bs) :
-    batched f nb bs l = l.map f := by
-  unfold batched
-  induction nb generalizing l with
-  | zero =>
-    have : l = [] := List.length_eq_zero_iff.1 (by simpa using h)
-    subst this; simp [chunks]
-  | succ nb ih =>
-    simp only [chunks, List.map_cons, List.flatten_cons]
-    have hl : (l.drop bs).length = nb * bs := by
-      rw [List.length_drop, h]; ring_nf; omega
-    rw [ih (l.drop bs) hl, ← List.map_append, List.take_append_drop]
+    batched f nb bs l = l.map f := AfqmcVerif.Estimator.batched_eq_map f nb bs l h
 
 /-- the value an entry point returns from its blocks: with a single block it is that block's energy -/
 theorem combine_single (E Wt : K) (hW : Wt ≠ 0) : combine [(E, Wt)] = E := by
